@@ -74,7 +74,7 @@ func VerifC11Abort() {
 	at := vstub.NdChoice("at", n+2)      // 0: before the request; k>=1: at the k-th fetch; n+1: never reached (after the last fetch)
 	failHash := ""
 	if fault == 1 || fault == 2 {
-		failHash = all[vstub.NdChoice("failWhich", len(all))].GetHash().String()
+		failHash = vstub.BlockKey(all[vstub.NdChoice("failWhich", len(all))].GetHash())
 		blocks.Missing[failHash] = true
 	}
 	if fault == 0 || fault == 2 {
